@@ -83,6 +83,9 @@ def stmt? (ws : List String) : Option Stmt :=
   | ["E", j, n, e] => match j.toNat?, unhex n, unhex e with
     | some j, some n, some e => some (.ext j n e)
     | _, _, _ => none
+  | ["N", j, n] => match j.toNat? with
+    | some j => if n == "-" then some (.rename j none) else (unhex n).map fun s => Stmt.rename j (some s)
+    | none => none
   | ["P", n] => if n == "-" then some (.pyjob none) else (unhex n).map fun s => Stmt.pyjob (some s)
   | "Y" :: j :: rs => match j.toNat?, rs.mapM pyArg? with
     | some j, some rs => some (.pycall j rs)
